@@ -84,6 +84,23 @@ def run(ctx):
     ctx.check(IntegrateShape.area(Primitive.polygon(small)) == F(drv.ask(f"moment S {core.epoly(small)} 0 0")), "area of a rational polygon is not the exact rational", {"vertices": small},
               sig={"family": "large-denominator", "pairwise_den_product_gt_1e9": False})
     # ---- (2) operators, crossings, moments on rational polygons (int / Fraction / mixed)
+    # crossing parameters are exact whatever their denominator (they are not stored in a Point2D)
+    for it in range(8 if ctx.quick else 300):
+        for _ in range(50):
+            va = shapes.ccw(gen.star_polygon(rng, rng.randint(3, 5), 40000, 0, 0, den=1))
+            vb = shapes.ccw(gen.star_polygon(rng, rng.randint(3, 5), 40000, rng.randint(-20000, 20000), rng.randint(-20000, 20000), den=1))
+            if drv.ask("genpos " + core.elist([va, vb], core.epoly)) == "T":
+                break
+        got = JordanCurve.from_vertices(va).intersection(JordanCurve.from_vertices(vb))
+        t = core.Toks(drv.ask(f"jinter {core.epoly(va)} {core.epoly(vb)} T T"))
+        exp = []
+        for _ in range(t.nat()):
+            a, b = t.nat(), t.nat(); u, v = t.tok(), t.tok()
+            exp.append((a, b, F(u), F(v)))
+        ctx.case("large-integer-crossing", (tuple(va), tuple(vb)), nontrivial=len(exp) > 0)
+        ctx.count("param-den>1e9" if any(x[2].denominator > 10 ** 9 for x in exp) else "param-den<=1e9")
+        ctx.check(sorted(tuple(x) for x in got) == sorted(exp) and all(core.isfrac(x[2]) and core.isfrac(x[3]) for x in got),
+                  "crossing parameters of large-integer polygons are not the exact rationals", {"A": va, "B": vb}, sorted(exp)[:3], sorted(tuple(x) for x in got)[:3])
     for it in range(25 if ctx.quick else 800):
         vss = impl.leaf_family(ctx, 2, pinv=0.2)
         kind = rng.choice(["frac", "int", "mixed"])
